@@ -105,7 +105,11 @@ def make(res, dist, params, style):
             cut = 0 if style == "keyword" else 1
             if cut < len(params):
                 res.count("factory_calls_with_keywords")
-                kw = dict(zip(names[cut:], params[cut:]))
+                items = list(zip(names[cut:], params[cut:]))
+                if len(items) > 1 and (len(repr(params)) + len(dist)) % 2:
+                    items.reverse()          # keyword arguments have no order: kappa=..., alpha=... is the same call
+                    res.count("keyword_calls_in_another_order_than_the_signature")
+                kw = dict(items)
                 return sut(f"{dist}(*{tuple(params[:cut])}, **{kw})", fac, *params[:cut], **kw)
     return sut(f"{dist}{tuple(params)}", fac, *params)
 
